@@ -139,10 +139,11 @@ def step_coq(st, tb):
             '; '.join('(%d, %d, %s, %s)' % (b, i, path_coq(p), mans_coq(a)) for b, i, p, a in st['reattach']))
     return '(SReq %d (mkC %d %d) %s %s)' % (st['hdr'], st['uid'], st['gid'], op_coq(st, tb), ans_coq(st['ans']))
 
-def cfg_tok(i, cfg): return 'CASE %d %s %d %d %d' % (i, map_tok(cfg['gmap']), cfg['rm'], cfg['no_open'], cfg['no_opendir'])
+CFG_FLAGS = ['rm', 'no_open', 'no_opendir', 'no_writeback', 'killpriv_v2', 'no_readdir', 'seal_size']
+def cfg_tok(i, cfg): return 'CASE %d %s %s' % (i, map_tok(cfg['gmap']), ' '.join(str(int(bool(cfg.get(f, 0)))) for f in CFG_FLAGS))
 def cfg_coq(cfg):
     b = lambda x: 'true' if x else 'false'
-    return '(mkCfg %s %s %s %s)' % (map_coq(cfg['gmap']), b(cfg['rm']), b(cfg['no_open']), b(cfg['no_opendir']))
+    return '(mkCfg %s %s)' % (map_coq(cfg['gmap']), ' '.join(b(cfg.get(f, 0)) for f in CFG_FLAGS))
 
 # ------------------------------------------------------------------ observations
 def num(tok):
@@ -385,7 +386,8 @@ class HistoryGen:
         r = self.rng.random()
         if allow_root and r < 0.08: comps = []
         else:
-            comps = [('N', self.rng.choice(self.names)) for _ in range(self.rng.randrange(1, maxdepth + 1))]
+            depth = self.rng.randrange(1, maxdepth + 1) if self.rng.random() < 0.93 else self.rng.randrange(4, 7)
+            comps = [('N', self.rng.choice(self.names)) for _ in range(depth)]
             if self.rng.random() < 0.08:
                 comps.insert(self.rng.randrange(0, len(comps) + 1), ('P',))
         return mk_path(self.rng, comps, rooted=self.rng.random() > 0.03)
